@@ -116,6 +116,97 @@ type progBuilder struct {
 	cases      map[string][]string // sub-programs of a switch (Server.readPacket)
 	defs       map[string]ast.Expr // local `name := expr` definitions (for length expressions)
 	info       *types.Info
+	msgVars    map[string]bool // variables that are (views of / copies of) the message being read or written
+}
+
+// canon renders an expression independently of local variable names: views of the message become
+// `msg[lo:hi]`, locals are replaced by their defining expression (a slice of the message, a DH or
+// KEM computation, …).  What remains are constants, struct field paths and method names.
+func (p *progBuilder) canon(e ast.Expr, depth int) string {
+	// the operand itself, if it is a local variable, is replaced by its defining expression — once
+	switch x := e.(type) {
+	case *ast.Ident:
+		if !p.msgVars[x.Name] {
+			if d, ok := p.defs[x.Name]; ok && depth == 0 {
+				return p.inner(d)
+			}
+		}
+	case *ast.StarExpr:
+		if id, ok := x.X.(*ast.Ident); ok && depth == 0 {
+			if d, ok := p.defs[id.Name]; ok && !p.msgVars[id.Name] {
+				return "*" + p.inner(d)
+			}
+		}
+	}
+	return p.inner(e)
+}
+
+// inner replaces views of the message by `msg[lo:hi]` and leaves every other name alone.
+func (p *progBuilder) inner(e ast.Expr) string {
+	switch x := e.(type) {
+	case *ast.Ident:
+		if p.msgVars[x.Name] {
+			return "msg"
+		}
+		return x.Name
+	case *ast.ParenExpr:
+		return "(" + p.inner(x.X) + ")"
+	case *ast.StarExpr:
+		return "*" + p.inner(x.X)
+	case *ast.UnaryExpr:
+		return x.Op.String() + p.inner(x.X)
+	case *ast.SliceExpr:
+		base := p.inner(x.X)
+		lo, hi := "", ""
+		if x.Low != nil {
+			lo = exprStr(x.Low)
+		}
+		if x.High != nil {
+			hi = exprStr(x.High)
+		}
+		if base == "msg" && lo == "" && hi == "" {
+			return "msg"
+		}
+		return base + "[" + lo + ":" + hi + "]"
+	case *ast.SelectorExpr:
+		return p.inner(x.X) + "." + x.Sel.Name
+	case *ast.CallExpr:
+		var args []string
+		for _, a := range x.Args {
+			args = append(args, p.inner(a))
+		}
+		return p.inner(x.Fun) + "(" + strings.Join(args, ", ") + ")"
+	}
+	return exprStr(e)
+}
+
+func (p *progBuilder) noteAssign(lhs []ast.Expr, rhs []ast.Expr) {
+	if p.defs == nil {
+		p.defs = map[string]ast.Expr{}
+	}
+	if p.msgVars == nil {
+		p.msgVars = map[string]bool{}
+	}
+	if len(rhs) == 1 {
+		for _, l := range lhs {
+			id, ok := l.(*ast.Ident)
+			if !ok || id.Name == "_" || id.Name == "err" {
+				continue
+			}
+			c := p.inner(rhs[0])
+			if len(lhs) == 1 && (c == "msg" || (strings.HasPrefix(c, "msg[") && strings.HasSuffix(c, ":]"))) {
+				// `x := b`, `b = b[k:]`: still the message (what is left of it)
+				p.msgVars[id.Name] = true
+				continue
+			}
+			if p.msgVars[id.Name] && len(lhs) == 1 {
+				if _, isMake := rhs[0].(*ast.CallExpr); !isMake {
+					delete(p.msgVars, id.Name)
+				}
+			}
+			p.defs[id.Name] = rhs[0]
+		}
+	}
 }
 
 // linear evaluates a length expression to a + b*n where n is the encrypted-certificates length
@@ -211,25 +302,31 @@ func (p *progBuilder) call(c *ast.CallExpr, fn string, list []ast.Stmt, i int) {
 		}
 		return ""
 	}
+	carg := func(k int) string {
+		if k < len(c.Args) {
+			return p.canon(c.Args[k], 0)
+		}
+		return ""
+	}
 	switch {
 	case strings.HasSuffix(fn, "duplex.Absorb"):
-		p.emit(".absorb %s", q(arg(0)))
+		p.emit(".absorb %s", q(carg(0)))
 	case strings.HasSuffix(fn, "duplex.Squeeze"):
 		if strings.Contains(arg(0), "macBuf") {
 			p.pendingMac = true
 		} else {
-			p.emit(".squeezeOut %s", q(arg(0)))
+			p.emit(".squeezeOut %s", q(carg(0)))
 		}
 	case strings.HasSuffix(fn, "duplex.Encrypt"):
-		p.emit(".encrypt %s", q(arg(1)))
+		p.emit(".encrypt %s", q(carg(1)))
 	case strings.HasSuffix(fn, "duplex.Decrypt"):
-		p.emit(".decrypt %s true", q(arg(1)))
+		p.emit(".decrypt %s true", q(carg(1)))
 	case strings.HasSuffix(fn, "EncryptSNI"):
 		p.emit(".encrypt %s", q("SNI"))
 	case fn == "EncryptCertificates":
 		p.emit(".encrypt %s", q("certs"))
 	case fn == "DecryptCertificates":
-		p.emit(".decrypt %s %s", q(arg(1)), b2l(errChecked(list, i)))
+		p.emit(".decrypt %s %s", q(carg(1)), b2l(errChecked(list, i)))
 	case strings.HasSuffix(fn, "certificateParserAndVerifier"):
 		p.emit(".verifyCerts %s", b2l(errChecked(list, i)))
 	case strings.HasSuffix(fn, "RekeyFromSqueeze"):
@@ -252,7 +349,7 @@ func (p *progBuilder) call(c *ast.CallExpr, fn string, list []ast.Stmt, i int) {
 		}
 		what := short
 		if len(c.Args) > 0 && (short == "DH" || short == "Agree" || short == "Decapsulate") {
-			what = exprStr(c.Fun) + "(" + arg(0) + ")"
+			what = p.canon(c, 0)
 		}
 		p.emit(".compute %s %s", q(what), b2l(errChecked(list, i)))
 	default:
@@ -275,16 +372,18 @@ func (p *progBuilder) walk(list []ast.Stmt) {
 		switch s := st.(type) {
 		case *ast.ExprStmt:
 			if c, fn := callOf(s.X); c != nil {
+				if fn == "copy" && len(c.Args) == 2 {
+					if id, ok := c.Args[0].(*ast.Ident); ok && p.inner(c.Args[1]) == "msg" {
+						if p.msgVars == nil {
+							p.msgVars = map[string]bool{}
+						}
+						p.msgVars[id.Name] = true
+					}
+				}
 				p.call(c, fn, list, i)
 			}
 		case *ast.AssignStmt:
 			if len(s.Lhs) == 1 && len(s.Rhs) == 1 {
-				if id, ok := s.Lhs[0].(*ast.Ident); ok {
-					if p.defs == nil {
-						p.defs = map[string]ast.Expr{}
-					}
-					p.defs[id.Name] = s.Rhs[0]
-				}
 				if strings.HasSuffix(exprStr(s.Lhs[0]), ".certVerify") {
 					p.emit(".compute %s true", q("set certVerify = "+exprStr(s.Rhs[0])))
 				}
@@ -294,6 +393,7 @@ func (p *progBuilder) walk(list []ast.Stmt) {
 					p.call(c, fn, list, i)
 				}
 			}
+			p.noteAssign(s.Lhs, s.Rhs)
 		case *ast.DeclStmt:
 			// var x = f(...) is not used by the handshake code
 		case *ast.IfStmt:
@@ -314,7 +414,7 @@ func (p *progBuilder) walk(list []ast.Stmt) {
 				arg := cond
 				if c, ok := s.Cond.(*ast.UnaryExpr); ok {
 					if call, ok := c.X.(*ast.CallExpr); ok && len(call.Args) == 2 {
-						arg = exprStr(call.Args[1])
+						arg = p.canon(call.Args[1], 0)
 					}
 				}
 				p.emit(".macCheck %s %s", q(arg), b2l(leaves(s.Body)))
@@ -358,7 +458,7 @@ func (p *progBuilder) walk(list []ast.Stmt) {
 				if len(clause.List) > 0 {
 					name = exprStr(clause.List[0])
 				}
-				sub := &progBuilder{info: p.info}
+				sub := &progBuilder{info: p.info, msgVars: p.msgVars, defs: p.defs}
 				sub.walk(clause.Body)
 				if p.cases == nil {
 					p.cases = map[string][]string{}
@@ -386,6 +486,21 @@ func (p *progBuilder) walk(list []ast.Stmt) {
 	}
 }
 
+// newProg starts a program for a function: its []byte parameters are the message.
+func newProg(fd *ast.FuncDecl, info *types.Info) *progBuilder {
+	p := &progBuilder{info: info, msgVars: map[string]bool{}, defs: map[string]ast.Expr{}}
+	if fd.Type.Params != nil {
+		for _, f := range fd.Type.Params.List {
+			if exprStr(f.Type) == "[]byte" {
+				for _, n := range f.Names {
+					p.msgVars[n.Name] = true
+				}
+			}
+		}
+	}
+	return p
+}
+
 // structural facts: the operation program of every handshake reader/writer, and the dispatch
 // facts of Server.readPacket.
 func structural(l *loader, facts map[string]any, out string) {
@@ -398,13 +513,13 @@ func structural(l *loader, facts map[string]any, out string) {
 			}
 			for _, want := range hsFuncs {
 				if fd.Name.Name == want {
-					p := &progBuilder{info: l.infos["transport"]}
+					p := newProg(fd, l.infos["transport"])
 					p.walk(fd.Body.List)
 					progs[want] = p.ops
 				}
 			}
 			if fd.Name.Name == "handleSessionMessage" && fd.Recv != nil {
-				p := &progBuilder{info: l.infos["transport"]}
+				p := newProg(fd, l.infos["transport"])
 				p.walk(fd.Body.List)
 				recv := "Server"
 				if strings.Contains(exprStr(fd.Recv.List[0].Type), "Client") {
@@ -413,7 +528,7 @@ func structural(l *loader, facts map[string]any, out string) {
 				progs["handleSessionMessage_"+recv] = p.ops
 			}
 			if fd.Name.Name == "readPacket" && fd.Recv != nil {
-				p := &progBuilder{info: l.infos["transport"]}
+				p := newProg(fd, l.infos["transport"])
 				p.walk(fd.Body.List)
 				progs["readPacket"] = p.ops
 				for _, c := range dispatchCases {
